@@ -5,7 +5,7 @@ import json, os, subprocess, sys, tempfile
 V = os.path.dirname(os.path.dirname(os.path.abspath(__file__)))
 out = tempfile.mktemp(suffix=".json", dir=os.path.join(V, "build"))
 env = dict(os.environ, GOFLAGS="-mod=mod", GOPROXY="off", GOSUMDB="off", GOTOOLCHAIN="local")
-r = subprocess.run([os.path.join(V, "bin", "gosym"), "-repo", os.environ.get("VERIF_REPO", "/repo"), "-run", "y.VpHSelfTest", "-out", out, "-models", "0", "-timeout", "600"],
+r = subprocess.run([os.path.join(V, "bin", "gosym"), "-repo", os.environ.get("VERIF_REPO", "/repo"), "-harness-dir", os.path.join(V, "harness"), "-run", "y.VpHSelfTest", "-out", out, "-models", "0", "-timeout", "600"],
                    env=env, capture_output=True, text=True)
 if r.returncode != 0 or not os.path.exists(out):
     print("selftest: engine failed\n" + r.stderr[-2000:]); sys.exit(1)
